@@ -302,7 +302,7 @@ def dom_of_type(ty):
 
 # ------------------------------------------------------------------------------------ state
 class State:
-    __slots__ = ("mem", "epoch", "doms", "zone", "dead")
+    __slots__ = ("mem", "epoch", "doms", "zone", "dead", "_prop")
 
     def __init__(self):
         self.mem = {}
@@ -310,6 +310,7 @@ class State:
         self.doms = {}
         self.zone = {}
         self.dead = False
+        self._prop = False
 
     def copy(self):
         s = State()
@@ -459,14 +460,35 @@ class State:
         if nd.empty():
             self.dead = True
             return
+        changed = nd != cur
         if nd != self._default_dom(sv, 0):
             self.doms[sv] = nd
+        if changed and self.zone and not getattr(self, "_prop", False):
+            # one step of bound propagation along difference constraints
+            self._prop = True
+            try:
+                for (a, b), k in list(self.zone.items()):
+                    if a == sv and nd.lo != -INF:
+                        self.set_dom(b, Dom(nd.lo - k, INF))          # a - b <= k  =>  b >= a - k
+                    elif b == sv and nd.hi != INF:
+                        self.set_dom(a, Dom(-INF, nd.hi + k))         # a <= b + k
+                    if self.dead:
+                        break
+            finally:
+                self._prop = False
         # propagate through value-preserving wrappers
         if isinstance(sv, tuple) and sv[0] == "cast":
             inner = self.dom(sv[2])
             tr = dom_of_type(sv[1])
             if inner.lo >= tr.lo and inner.hi <= tr.hi:
                 self.set_dom(sv[2], nd)
+        if isinstance(sv, tuple) and sv[0] == "bin" and sv[1] == "Mul" and nd.lo >= 1:
+            # a product of naturals is positive only if both factors are
+            a, b = sv[3], sv[4]
+            if self.dom(a).lo >= 0 and self.dom(b).lo >= 0:
+                self.set_dom(a, Dom(1, INF))
+                if not self.dead:
+                    self.set_dom(b, Dom(1, INF))
         if isinstance(sv, tuple) and sv[0] == "bin" and not sv[1].endswith("W"):
             # x + c in [lo,hi]  =>  x in [lo-c, hi-c]   (checked ops: mathematical)
             op, a, b = sv[1], sv[3], sv[4]
